@@ -9,6 +9,8 @@ use std::fmt::Write as _;
 
 use std::collections::BTreeMap;
 
+mod asm;
+mod sbuf;
 mod snapshot;
 mod wire;
 
@@ -57,6 +59,8 @@ fn registry(name: &str) -> Option<Ctor> {
         "varint" => || Box::new(wire::VarIntC),
         "pn" => || Box::new(wire::PnC),
         "dedup" => || Box::new(wire::DedupC::new()),
+        "sbuf" => || Box::new(sbuf::SbufC::new()),
+        "asm" => || Box::new(asm::AsmC::new()),
         _ => return None,
     })
 }
